@@ -152,6 +152,9 @@ func (mo *Monitor) AfterBlock(b *forge.Block) error {
 	if len(x.Impostors) > 0 {
 		mo.sigPrefix = "spr-impostor "
 	}
+	if x.MixedPegBatch {
+		mo.sigPrefix = "bank-mixed-batch "
+	}
 	obsH, neg, err := harness.ReadBalances(mo.DB, "pn_addresses")
 	if err != nil {
 		return err
@@ -232,6 +235,7 @@ func (mo *Monitor) AfterBlock(b *forge.Block) error {
 				if mo.sigPrefix != "" {
 					props["C11"] = true
 					props["C12"] = true
+					props["C16"] = true
 				}
 				if got < was && len(evs) == 0 {
 					props["C03"] = true
